@@ -104,7 +104,7 @@ func init() {
 		ID:          "C05",
 		Title:       "Link collections stay symmetric; ref-counted links agree on both sides",
 		Technique:   "static analysis: pairing rule (every local link write is followed on all success paths by the opposite-side write of the same polarity with swapped arguments), missing-entity error rule, count-agreement check rule, unconditional remote removal on entity delete, no-mutation-of-the-iterated-bucket rule, error-holder consultation; error discipline on the link functions (incl. tested-but-unused errors); must-write rule for the remote count; delete orchestration",
-		LevelText:   "Necessary conditions decided on every path: each function that writes the local side of a link also performs the remote operation of the same polarity with (id, key) swapped before reporting success; adding a link to a missing entity returns an error; increment/decrement compare both sides' new counts; deleting an entity removes the remote entry of every link unconditionally and both link kinds are cleaned up; no function deletes from a bucket while it is walking that bucket's cursor; recorded bucket errors are returned. Correctness of the SetLinks sorted merge on data is not decided. No link function loses a failure of either side (an error that is only tested for nil and then dropped is reported); the remote side of setLinkCount/incrementLinkCount writes on every successful path; link cleanup runs for every deleted entity, also through child stores. Added later: no answer of bbolt's Stats()/KeyN (committed pages, not the transaction's own writes) decides whether links exist (NOSTATS). Added in rounds 8-9: the value handed to bbolt Put is not a pooled or scratch buffer (PUTFRESH); no bucket inside an entity is looked up by a symbol's name instead of its path (NAMEPATH). Added in round 11: the entities bucket is keyed with an id only where the store's entityPath is then descended (ENTITYBUCKET); no write of any kind through the bucket whose cursor drives a loop (ITERATE).",
+		LevelText:   "Necessary conditions decided on every path: each function that writes the local side of a link also performs the remote operation of the same polarity with (id, key) swapped before reporting success; adding a link to a missing entity returns an error; increment/decrement compare both sides' new counts; deleting an entity removes the remote entry of every link unconditionally and both link kinds are cleaned up; no function deletes from a bucket while it is walking that bucket's cursor; recorded bucket errors are returned. Correctness of the SetLinks sorted merge on data is not decided. No link function loses a failure of either side (an error that is only tested for nil and then dropped is reported); the remote side of setLinkCount/incrementLinkCount writes on every successful path; link cleanup runs for every deleted entity, also through child stores. Added later: no answer of bbolt's Stats()/KeyN (committed pages, not the transaction's own writes) decides whether links exist (NOSTATS). Added in rounds 8-9: the value handed to bbolt Put is not a pooled or scratch buffer (PUTFRESH); no bucket inside an entity is looked up by a symbol's name instead of its path (NAMEPATH). Added in round 11: the entities bucket is keyed with an id only where the store's entityPath is then descended (ENTITYBUCKET); no write of any kind through the bucket whose cursor drives a loop (ITERATE). Added in round 13: no link collection method reaches for the parent store (LINKSTORE: both sides find an entity through the symbol's own store).",
 		LevelNote:   "Trusted: go/types, x/tools SSA, bbolt cursor semantics (deleting under a live cursor may skip entries).",
 		DesignRef:   "DESIGN.md C05",
 		Explanation: "Sites: all functions of link_collection.go and link_collection_rc.go, TypedBucket link-count methods, BaseStore.cleanupLinks.",
@@ -117,6 +117,7 @@ func init() {
 			ruleLinkPair(c, "C05.PAIR")
 			ruleSymbolPathNotName(c, "C05.NAMEPATH")
 			ruleEntityBucketDescent(c, "C05.ENTITYBUCKET")
+			ruleLinkOwnStore(c, "C05.LINKSTORE")
 			rulePutFresh(c, "C05.PUTFRESH")
 			ruleTaggedOnce(c, "C05.KEYTAG")
 			ruleNoStats(c, "C05.NOSTATS")
@@ -160,7 +161,7 @@ func init() {
 		ID:          "C06",
 		Title:       "A committed delete leaves no trace of the entity's id",
 		Technique:   "static analysis: must-pass orchestration of the delete path (parent delegation, child fan-out, constraints, link cleanup, entity bucket removal), writer⊆remover pairing per constraint type, stale-back-reference rule on updates, unconditional remote link removal, no-mutation-of-the-iterated-bucket rule",
-		LevelText:   "Decides that every place the id can have been written has a remover on the delete path and that the path is complete on every non-failing route: child stores delegate to the parent; the parent runs, for every child strategy, the child's delete constraints, then its own, then removes the entity bucket (child data lives below it); every index-writing constraint type has a delete-side remover; updates remove the old back-reference on every changed path (otherwise a later delete cannot find it); entity deletion removes the remote side of every link without deleting under the live cursor. That removers delete exactly the keys writers wrote on every history is not decided (the repository's ValidateDeleted oracle does that at run time). Added later: child strategies are appended, never replaced (CHILDREG); the error result of the delete-constraint step is looked at on every path before the entity bucket is removed (LOOKEDAT); no bbolt Stats() answer decides a cleanup (NOSTATS). Added in rounds 8-9: cross-listed RAWID, FRESHFILTER and WIRING (the delete rule of a foreign key lands on the referenced store and finds the referrers of exactly the id being deleted, also in nested deletes). Added in round 10: a forward Seek lands on the first remaining key (CURSORSEEK); the cascade loop is left only on an exhausted cursor or a recorded/returned failure (CASCADE). Added in round 11: the id scanner's Seek re-seeks (RESEEK); ENTITYBUCKET as in C05.",
+		LevelText:   "Decides that every place the id can have been written has a remover on the delete path and that the path is complete on every non-failing route: child stores delegate to the parent; the parent runs, for every child strategy, the child's delete constraints, then its own, then removes the entity bucket (child data lives below it); every index-writing constraint type has a delete-side remover; updates remove the old back-reference on every changed path (otherwise a later delete cannot find it); entity deletion removes the remote side of every link without deleting under the live cursor. That removers delete exactly the keys writers wrote on every history is not decided (the repository's ValidateDeleted oracle does that at run time). Added later: child strategies are appended, never replaced (CHILDREG); the error result of the delete-constraint step is looked at on every path before the entity bucket is removed (LOOKEDAT); no bbolt Stats() answer decides a cleanup (NOSTATS). Added in rounds 8-9: cross-listed RAWID, FRESHFILTER and WIRING (the delete rule of a foreign key lands on the referenced store and finds the referrers of exactly the id being deleted, also in nested deletes). Added in round 10: a forward Seek lands on the first remaining key (CURSORSEEK); the cascade loop is left only on an exhausted cursor or a recorded/returned failure (CASCADE). Added in round 11: the id scanner's Seek re-seeks (RESEEK); ENTITYBUCKET as in C05. Added in round 13: LINKSTORE as in C05.",
 		LevelNote:   "Trusted: go/types, x/tools SSA, bbolt (DeleteBucket removes nested buckets).",
 		DesignRef:   "DESIGN.md C06",
 		Explanation: "Sites: BaseStore.DeleteById/processDeleteConstraints/cleanupLinks, NewBaseStore path construction, all Constraint implementers, link collections' EntityDeleted.",
@@ -178,6 +179,7 @@ func init() {
 			ruleFkDelete(c, "C06.CASCADE")
 			ruleSeekAbsolute(c, "C06.RESEEK")
 			ruleEntityBucketDescent(c, "C06.ENTITYBUCKET")
+			ruleLinkOwnStore(c, "C06.LINKSTORE")
 			// the cascade re-seeks its cursor to the id it just deleted: the Seek must land on the next referrer, not pass it
 			ruleCursorDirection(c, c.cursorTypes(), "C06.CURSORSEEK", "C06.DIRPARAM")
 			ruleCleanupPlacement(c, "C06.LINKS")
